@@ -24,6 +24,28 @@ CHECKS = {
         "suffix, other majors, unrelated names).",
         "Trusted: the reference transcription of docs/track.rst (30 lines), git itself. Remote repositories are not exercised.",
     ),
+    "C16": (
+        "fault_enumeration",
+        "exhaustive enumeration of attempt-outcome words (prefix-pruned DFS) x retry-parameter combinations x two-call histories on the "
+        "real runner.Retry under a virtual asyncio clock, against a reference model",
+        "DESIGN.md §4 C16",
+        "Every word over 10 attempt outcomes up to length 3 (thorough 4-5) x ~290 parameter combinations (each parameter present and "
+        "absent, constructor default) is run through the real Retry on a virtual-time event loop, on a fresh instance and after each of "
+        "5 earlier calls through the same (shared, registered) instance; number of delegate calls, the pause before each, and the identity "
+        "of the final result/exception are compared with a reference. Also: operations documented as retryable are wrapped by Retry.",
+        "Trusted: the reference (40 lines, from docs/track.rst and the statement), the virtual loop (mc/vloop.py). Word length bound stated in evidence.",
+    ),
+    "C17": (
+        "fault_enumeration",
+        "exhaustive enumeration of node-level fault words (prefix-pruned DFS, plus all piecewise-constant words around the 10-retry "
+        "budget) for every EsClient operation through the real Rally sync client over a scripted node, against a reference model",
+        "DESIGN.md §4 C17",
+        "For each of the 13 metrics-store operations every word over 13 (bulk: 17) HTTP/transport outcomes up to length 3 (thorough 4), "
+        "every word a^i b^j c with 9..11 leading retryable faults, and two-call histories are executed against the real EsClient.guarded "
+        "with the real elasticsearch client stack; request count, identical re-sent payloads, pauses within [2^k, 2^k+1), first success "
+        "returned, error class and cause named are compared with the reference.",
+        "Trusted: the scripted node (60 lines), the reference (30 lines). Client-level transport retries are disabled so one attempt = one request.",
+    ),
 }
 
 NOT_YET = {}
